@@ -479,7 +479,7 @@ impl verif_hooks::Handler for Handler {
                     other => panic!("harness bug: command {:?} to an agent parked at {:?}", other, site),
                 }
             }
-            Site::InCs(_) => {
+            Site::InCs(_) | Site::Between(_) => {
                 // Only in fine-grained mode: pause in the middle of a critical section so that other agents
                 // can do whatever they can do without the global lock.
                 if !FINE.load(Ordering::SeqCst) || cx.free_run.load(Ordering::SeqCst) {
